@@ -46,6 +46,7 @@ def check(ctx):
     ffi(ctx, "C05-R5", ["_dist", "_dist_displacement", "_dist_mic", "_dist_t", "_dist_mic_t", "_dist_mic_displacement", "_find_closest_contact"])
     ctx.rule("C05-R6", "every geometry function with a `periodic` parameter forwards it to every package callee that has one")
     flag_identity(ctx, "C05-R1", ["mdtraj/geometry/distance.py", "mdtraj/geometry/angle.py", "mdtraj/geometry/dihedral.py", "mdtraj/geometry/contact.py", "mdtraj/geometry/rdf.py", "mdtraj/geometry/hbond.py"], floor=10)
+    no_foreign_attribute_stores(ctx, "C05-R1", ["mdtraj/geometry/distance.py", "mdtraj/geometry/contact.py", "mdtraj/geometry/rdf.py"], floor=10)
     periodic_plumbing(ctx, "C05-R6", floor=20)
 
 
@@ -419,3 +420,87 @@ def flag_identity(ctx, rule, rels, name_filter=None, floor=1):
                        "`%s`: an option passed as numpy.bool_, 1 or another truthy value is silently treated as the opposite of True" % (src(bad[0]) if bad else ""))
     if n_flags < floor:
         raise AnalysisError("flag_identity: only %d boolean options found in %s" % (n_flags, rels))
+
+
+# ---------------------------------------------------------------------------------------------------
+_FOREIGN_CONTROL = """
+def f(top, names):
+    if hasattr(top, "topology"):
+        top = top.topology
+    cache = getattr(top, "_memo", None)
+    if cache is None:
+        cache = top._memo = build(top)
+    return cache
+"""
+
+
+def _foreign_stores(fn):
+    """attribute stores / setattr on an object that came in as an argument (the name of a parameter, or a local bound only from one)"""
+    a = fn.args
+    roots = {p.arg for p in a.posonlyargs + a.args + a.kwonlyargs} - {"self", "cls"}
+    if a.vararg:
+        roots.add(a.vararg.arg)
+    # locals that alias an argument or something reached from it: x = param / x = param.attr / for x in param.attr
+    changed = True
+    while changed:
+        changed = False
+        for n in walk_no_nested(fn):
+            tv = []
+            if isinstance(n, ast.Assign) and len(n.targets) == 1 and isinstance(n.targets[0], ast.Name):
+                tv = [(n.targets[0].id, n.value)]
+            elif isinstance(n, ast.For) and isinstance(n.target, ast.Name):
+                tv = [(n.target.id, n.iter)]
+            for name, v in tv:
+                b = v
+                while isinstance(b, (ast.Attribute, ast.Subscript)):
+                    b = b.value
+                if isinstance(b, ast.Name) and b.id in roots and name not in roots:
+                    roots.add(name)
+                    changed = True
+    out = []
+    for n in walk_no_nested(fn):
+        tg = []
+        if isinstance(n, ast.Assign):
+            tg = n.targets
+        elif isinstance(n, (ast.AugAssign, ast.AnnAssign)):
+            tg = [n.target]
+        for x in tg:
+            if isinstance(x, ast.Attribute):
+                b = x.value
+                while isinstance(b, (ast.Attribute, ast.Subscript)):
+                    b = b.value
+                if isinstance(b, ast.Name) and b.id in roots:
+                    out.append((n, src(x)))
+        if isinstance(n, ast.Call) and call_name(n) == "setattr" and n.args:
+            b = n.args[0]
+            while isinstance(b, (ast.Attribute, ast.Subscript)):
+                b = b.value
+            if isinstance(b, ast.Name) and b.id in roots:
+                out.append((n, "setattr(%s, ...)" % src(n.args[0])))
+    return out
+
+
+def no_foreign_attribute_stores(ctx, rule, rels, floor=1):
+    """An analysis function must not park derived data on the objects it is given (`top._cache = ...`): the owner's mutators cannot
+    invalidate a field they do not know, so a later call on the edited object answers from the old state.  Expected count is zero;
+    the detector is exercised on a built-in positive example on every run."""
+    ctl = ast.parse(_FOREIGN_CONTROL).body[0]
+    if len(_foreign_stores(ctl)) != 1:
+        raise AnalysisError("no_foreign_attribute_stores: the built-in positive example is no longer recognised")
+    n_fn = 0
+    for rel in rels:
+        m = ctx.py.mod(rel)
+        ctx.analysed_files.add(rel)
+        seen = set()
+        bad = []
+        for q, fn in sorted(m.functions.items()):
+            if id(fn) in seen:
+                continue
+            seen.add(id(fn))
+            n_fn += 1
+            for node, what in _foreign_stores(fn):
+                bad.append((q, node, what))
+        ctx.decide(not bad, rule, bad[0][1] if bad else m.tree, rel, bad[0][0] if bad else "<module>", "no function stores attributes on its arguments (%d functions)" % len(seen), "",
+                   "`%s` is stored on an object passed in by the caller: a memo kept on a Topology / Trajectory outside its class is never invalidated when the object is edited" % (bad[0][2] if bad else ""))
+    if n_fn < floor:
+        raise AnalysisError("no_foreign_attribute_stores: %d functions in %s" % (n_fn, rels))
